@@ -344,7 +344,9 @@ func buildOutputSeries(seriesID uint64, highCardSeries, lowCardSeries model.Seri
 		lowCardLabels := labels.NewBuilder(lowCardSeries.Metric).
 			Keep(includeLabels...).
 			Labels(nil)
-		metric = append(metric, lowCardLabels...)
+		// The metric may be the label slice handed out by the storage: append to a
+		// copy, never into its spare capacity.
+		metric = append(metric[:len(metric):len(metric)], lowCardLabels...)
 	}
 	return model.Series{ID: seriesID, Metric: metric}
 }
